@@ -32,4 +32,6 @@ _whole.install(globals(), "C12",
                technique="Coq theorems on pure selection models + vm_compute differential run against the real operators + monitors on recorded generations",
                quick=160, thorough=4000, nontrivial=nontrivial, extra_checks=[comps], machine_replay=False,
                forces=[(3, None), (1, {"objective_kind": "plateau"}), (1, {"maximize": True}), (1, {"objective_kind": "nanhole", "box": [[-5.0, 5.0], [-5.0, 5.0]], "dim": 2}),
-                       (1, {"objective_kind": "nanhole", "box": [[-5.0, 5.0], [-5.0, 5.0]], "dim": 2, "height": 1, "engines": ["DE"]})])
+                       (1, {"objective_kind": "nanhole", "box": [[-5.0, 5.0], [-5.0, 5.0]], "dim": 2, "height": 1, "engines": ["DE"]}),
+                       (1, {"height": 2, "narrowing_boxes": True, "wrappers": "none", "box_style": "sym", "objective_kind": "funnel", "engines": ["SEA", "DE"], "dim": 2, "levels_patch": [{}, {"sample_std": 3.0}]}),
+                       (1, {"height": 2, "engines": ["SEAWithCrossover", "SEA"], "levels_patch": [{"p_mutation": 0.5, "k_elites": 1}, {"p_mutation": 0.5, "k_elites": 2}]})])
